@@ -94,10 +94,16 @@ func Tokens(p *Program, finalNewline bool) []Tok {
 }
 
 func (t *tokenizer) clist(cl *CList) {
+	if cl.LeadNL && !cl.Top {
+		t.newline(false)
+	}
 	for _, ao := range cl.Items {
 		t.pipeline(ao.First)
 		for _, it := range ao.Rest {
 			t.emit(Tok{Text: it.Op, Kind: TOp, LB: true})
+			if it.NL {
+				t.newline(false)
+			}
 			t.pipeline(it.P)
 		}
 		if ao.Sep != "" {
@@ -116,6 +122,9 @@ func (t *tokenizer) pipeline(p *Pipeline) {
 	for i, c := range p.Cmds {
 		if i > 0 {
 			t.emit(Tok{Text: "|", Kind: TOp, LB: true})
+			if i-1 < len(p.NLs) && p.NLs[i-1] {
+				t.newline(false)
+			}
 		}
 		t.cmd(c)
 	}
